@@ -8,6 +8,7 @@ package sched
 
 import (
 	"fmt"
+	"reflect"
 	"runtime/debug"
 	"strconv"
 	"sync/atomic"
@@ -325,6 +326,24 @@ func Yield() {
 	s := active.Load()
 	if s == nil || !s.FineGrained || s.aborting {
 		return
+	}
+	s.Point("stmt")
+}
+
+// YieldUnlessMap is what the rewriter inserts instead of Yield inside the body of a `range` loop over
+// an expression whose type it cannot see: the iteration order of a map is not under the scheduler's
+// control, so the number of scheduling points passed inside such a loop would differ from one run of
+// the same schedule to the next. Inside a loop over a map there is no statement-level scheduling point
+// (lock and channel operations remain scheduling points); over anything else this is Yield.
+func YieldUnlessMap(ranged ...interface{}) {
+	s := active.Load()
+	if s == nil || !s.FineGrained || s.aborting {
+		return
+	}
+	for _, x := range ranged {
+		if x != nil && reflect.TypeOf(x).Kind() == reflect.Map {
+			return
+		}
 	}
 	s.Point("stmt")
 }
